@@ -6,7 +6,7 @@ level (`ftyp`, `mdat`, `moof/traf/tfhd`, `trak/…/stco|co64`, `free`, …; 32- 
 to /repo byte for byte by harness/props/c10.py + mp4file_tie.py); lemmas: Proofs/Container/Mp4Props.lean.
 Scope: the `__save_existing` path (a file that has `moov.udta.meta.ilst`); `__save_new` is not stated on layouts here.
 -/
-import MutagenModel.Proofs.Container.Mp4Props
+import MutagenModel.Proofs.Container.Mp4New
 import MutagenModel.Props.C10
 set_option linter.unusedVariables false
 namespace Mutagen.C02
@@ -66,6 +66,26 @@ theorem mp4_save_preserves_foreign_exact (mem : Bool) (L : Layout) (h : L.OK) (i
     (hfit : wfList (L.saved items pad).top) (hno : L.tableSteps items pad = []) :
     saveTags mem L.render (ilstData items) pad = (none, (L.saved items pad).render) :=
   saveTags_layout_exact mem L h items pad hfit hno
+
+/-- the final file as a tree: the saved layout (same frames, same hole: every foreign atom in place) in which exactly
+the payloads of the visited table atoms were rewritten — `patchTables` applies `payloadPatch` (the atom's own
+`__update_offset_table` / `__update_tfhd` on its payload: entries behind the region start + delta) to the leaf at each
+table's offset and changes nothing else (`patchAtList`) -/
+theorem mp4_save_result_patched (mem : Bool) (L : Layout) (h : L.OK) (items : List Atom) (pad : PadChoice)
+    (hfit : wfList (L.saved items pad).top) (htab : L.TablesOK items pad) :
+    saveTags mem L.render (ilstData items) pad = (none, renderList (L.savedPatched items pad)) ∧
+      L.savedPatched items pad = patchTables (L.delta items pad) (holeOffset 0 L.frames L.hole) (L.visitedTables items pad)
+        (fill L.frames L.hole (L.saved items pad).mid) :=
+  ⟨(saveTags_layout_patched mem L h items pad hfit htab).1, rfl⟩
+
+/-- `__save_new`: the final file is the old tree with the new atoms in front of the children of `udta` (or of `moov`),
+and the payloads of the visited table atoms patched -/
+theorem mp4_save_new_preserves_foreign (mem : Bool) (N : NewLayout) (h : N.OK) (items : List Atom) (pad : PadChoice)
+    (hfit : wfList (N.saved items pad)) (htab : N.TablesOK items pad) :
+    saveTags mem N.render (ilstData items) pad = (none, renderList (N.savedPatched items pad)) ∧
+      N.savedPatched items pad = patchTables (N.delta items pad) N.offset (N.visitedTables items pad)
+        (fill N.frames ⟨[], N.kids⟩ (N.newAtoms items pad)) :=
+  ⟨(saveTags_new mem N h items pad hfit htab).1, rfl⟩
 
 /-- the hypotheses are satisfiable: a layout with a track (`stco` pointing into `mdat`) and one without; the save of
 the first one finishes, has one table step, and satisfies the side conditions of `mp4_save_offsets_follow` -/
